@@ -912,6 +912,20 @@ class Verifier:
             e = ExcVal("UserError" if c == "raise" else "Cancelled", ident=("await", ctx.evseq), origin="env")
             self.trace.append((f"await {describe(ev.payload[0])}", f"raise {e.cls}"))
             return ("raise", e)
+        if ev.kind == "SrcOp":
+            src, op, arg = ev.payload
+            src.state = "running"
+            opts = ["item", "end"] + (["raise-same"] if op == "throw" else [])
+            c = opts[ctx.choose(len(opts), f"srcop {op}")]
+            self.trace.append((f"{op} {src.name}({describe(arg) if arg is not None else ''})", c))
+            if c == "item":
+                return ("item", Opaque(ctx.fresh(Val, f"{src.name}_{op}_")))
+            src.ended = True
+            if c == "end":
+                src.state = "exhausted"
+                return ("end", None)
+            src.state = "closed" if src.kind == "gen" else "raised"
+            return ("raise", arg)
         if ev.kind == "CM":
             cm, op, args = ev.payload
             hook = job.opts.get("at_suspension")
@@ -1179,6 +1193,9 @@ class Verifier:
                 f = self.val_eq(tuple(ie.payload[1]), tuple(re_.payload[1]))
         elif ie.kind == "Yielded":
             f = self.val_eq(ie.payload[0], re_.payload[0])
+        elif ie.kind == "SrcOp":
+            f = ie.payload[0] is re_.payload[0] and ie.payload[1] == re_.payload[1] and (
+                ie.payload[2] is re_.payload[2] or self.val_eq(ie.payload[2], re_.payload[2]) is True)
         elif ie.kind == "CM":
             f = ie.payload[0] is re_.payload[0] and ie.payload[1] == re_.payload[1]
             if f:
